@@ -4,6 +4,7 @@ import (
 	"fmt"
 	"runtime"
 	"sync/atomic"
+	"verifmc/internal/extract"
 
 	"github.com/RoaringBitmap/roaring/v2"
 	"verifmc/internal/ev"
@@ -124,6 +125,92 @@ func runC14(c *Ctx) {
 			}
 			return "ok", nil
 		}, Describe: func(idx []int) any { return []any{corpus[idx[0]].Name, offs[idx[1]]} }}
+	// single-value edit histories on run-shaped chunks: long histories a bounded BFS cannot reach,
+	// enumerated as a family: run width x run count x which values are edited x operation
+	widths := []int{2, 3, 4, 5, 8}
+	counts := []int{1, 4, 10, 100, 1000}
+	patterns := []string{"trim-front", "trim-back", "trim-both", "trim-to-one", "punch-middle", "grow-gap"}
+	var texecs int64
+	p4 := &explore.Product{Name: "single-value edit histories on run chunks", Dims: []int{len(widths), len(counts), len(patterns), 2}, Deadline: c.Budget(90, 1250), Execs: &texecs,
+		Run: func(idx []int) (string, *ev.Fail) {
+			w, n, pat, checked := widths[idx[0]], counts[idx[1]], patterns[idx[2]], idx[3] == 1
+			stride := w + 3
+			if n*stride > 65000 {
+				return "skipped-too-wide", nil
+			}
+			b, m := roaring.New(), model.New32()
+			base := uint32(1) << 16
+			for i := 0; i < n; i++ {
+				lo := uint64(base) + uint64(i*stride)
+				b.AddRange(lo, lo+uint64(w))
+				m.AddRange(lo, lo+uint64(w))
+			}
+			b.RunOptimize()
+			every := 1
+			if n >= 100 {
+				every = n / 25 // check the bound at 25 points of the history plus its end
+			}
+			step := func(i int, x uint32, add bool) *ev.Fail {
+				if add {
+					if checked {
+						b.CheckedAdd(x)
+					} else {
+						b.Add(x)
+					}
+					m.Add(x)
+				} else {
+					if checked {
+						b.CheckedRemove(x)
+					} else {
+						b.Remove(x)
+					}
+					m.Remove(x)
+				}
+				atomic.AddInt64(&texecs, 1)
+				if i%every == 0 || i == n-1 {
+					if got := extract.Of(b); !got.Equal(m) {
+						return fail("Remove", "content", "content wrong during %s history: %s", pat, diff32(got, m))
+					}
+					return sizeBound(fmt.Sprintf("%s history (%d runs of %d), step %d", pat, n, w, i), b, m)
+				}
+				return nil
+			}
+			for i := 0; i < n; i++ {
+				lo := base + uint32(i*stride)
+				var f *ev.Fail
+				switch pat {
+				case "trim-front":
+					f = step(i, lo, false)
+				case "trim-back":
+					f = step(i, lo+uint32(w)-1, false)
+				case "trim-both":
+					if f = step(i, lo, false); f == nil && w > 2 {
+						f = step(i, lo+uint32(w)-1, false)
+					}
+				case "trim-to-one":
+					for k := 1; k < w && f == nil; k++ {
+						if k%2 == 1 {
+							f = step(i, lo+uint32(k/2), false)
+						} else {
+							f = step(i, lo+uint32(w-k/2), false)
+						}
+					}
+				case "punch-middle":
+					if w >= 3 {
+						f = step(i, lo+uint32(w/2), false)
+					}
+				case "grow-gap":
+					f = step(i, lo+uint32(w), true) // one value past the run: runs creep towards each other
+				}
+				if f != nil {
+					return "", f
+				}
+			}
+			return pat, nil
+		},
+		Describe: func(idx []int) any {
+			return map[string]any{"run_width": widths[idx[0]], "runs": counts[idx[1]], "pattern": patterns[idx[2]], "checked_ops": idx[3] == 1}
+		}}
 	f0 := bound32(bfs32("S1fix@0", s1FixOps(0), 0))
 	w0 := bound32(bfs32("S1wide@1", s1WideOps(1, q), 2))
 	s2 := bound32(bfs32("S2multi", s2Ops(q), 2))
@@ -133,5 +220,5 @@ func runC14(c *Ctx) {
 		w0.MaxDepth, s2.MaxDepth = 3, 3
 		f0.Deadline, w0.Deadline, s2.Deadline = c.Budget(0, 1300), c.Budget(0, 1500), c.Budget(0, 1750)
 	}
-	runScenarios(c, p1, p2, p3, f0, w0, s2)
+	runScenarios(c, p1, p2, p3, p4, f0, w0, s2)
 }
